@@ -88,7 +88,7 @@ EXC_CLAUSES = ['ValueError', 'MyErr', 'Exception', 'BaseException', 'GeneratorEx
                '(ValueError, KeyError)', '', 'MyBase', 'RuntimeError']
 RAISES = ["ValueError('r%d')", "MyErr('r%d')", "StopIteration(%d)", "KeyError('r%d')", "MyBase(%d)", "GeneratorExit(%d)"]
 GEN_DELEG = ['csub(%d)', 'pysub(%d)', 'PlainIter(%d, 2)', 'ThrowRaises(%d, 2)', 'CloseRaises(%d, 2)', 'SendIter(%d, 2)',
-             'csub_ignore(%d)', 'pysub_ignore(%d)', 'csub_ret(%d)', 'pysub_ret(%d)', '[%d, 7]', 'iter((%d,))',
+             'csub_ignore(%d)', 'pysub_ignore(%d)', 'csub_ret(%d)', 'pysub_ret(%d)', '[%d, %d + 1]', 'iter((%d,))',
              '(chk(i_, 1) + %d for i_ in range(3))']
 CORO_AWAIT = ['PyAw(%d)', 'CAw(%d)', 'ItAw(%d)', 'pycoro(%d)', 'ccoro(%d)', 'tcoro(%d)']
 
@@ -141,7 +141,7 @@ class BodyGen:
                 self.deleg[yid] = d.split('(')[0] if not d.startswith(('[', '(', 'iter')) else \
                     {'[': 'list', '(': 'genexpr', 'i': 'tuple_iter'}[d[0]]
                 self.ctx[yid] += '|d=' + self.deleg[yid]
-                lines = ['v = yield from ' + (d % base)]
+                lines = ['v = yield from ' + (d % ((base,) * d.count('%d')))]
             elif r < 0.35:
                 lines = ['yield ' + val]
             else:
